@@ -291,6 +291,63 @@ fn main() {
         }
         tables.push((*i, t));
     }
+    // ---- (2b) the probe again under a shim that owns the ambient inputs a library could consult: every clock reading
+    //      jumps ahead (an hour, a day), OS randomness is a fixed function of a seed. "The parsers return identical
+    //      results" includes: identical whatever the time of day and whatever the process's random keys.
+    {
+        let so = "/verif/target/c18/fakeenv.so";
+        let cc = Command::new("cc").args(["-shared", "-fPIC", "-O1", "-o", so, "/verif/probes/fakeenv/fakeenv.c"]).output();
+        if !matches!(&cc, Ok(o) if o.status.success()) {
+            machinery_failure("C18", "cannot build the clock / randomness shim (probes/fakeenv/fakeenv.c)");
+        }
+        let jobs: Vec<(usize, &'static str, &'static str)> = tables.iter().flat_map(|(i, _)| [(*i, "3600", "1"), (*i, "86400", "2"), (*i, "31", "3")]).collect();
+        let outs: Vec<(usize, &'static str, &'static str, std::io::Result<std::process::Output>)> = std::thread::scope(|sc| {
+            let hs: Vec<_> = jobs
+                .iter()
+                .map(|&(i, step, seed)| {
+                    sc.spawn(move || {
+                        let target = format!("/verif/target/c18/digest-{}", CFGS[i].name);
+                        let o = Command::new(format!("{}/release/digest-probe", target)).env("LD_PRELOAD", so).env("FAKE_CLOCK_STEP_S", step).env("FAKE_RANDOM_SEED", seed).output();
+                        (i, step, seed, o)
+                    })
+                })
+                .collect();
+            hs.into_iter().map(|h| h.join().unwrap()).collect()
+        });
+        for (i, step, seed, o) in outs {
+            let c = &CFGS[i];
+            let t = &tables.iter().find(|(k, _)| *k == i).unwrap().1;
+            let out = match o {
+                Ok(o) if o.status.success() => String::from_utf8_lossy(&o.stdout).to_string(),
+                Ok(o) => {
+                    sink.violation(format!("shim run {} {}", c.name, step), format!("under a clock advancing {} s per reading / random seed {} the probe of feature set '{}' ends with {:?}: {}", step, seed, c.name, o.status.code(), tail(&String::from_utf8_lossy(&o.stderr), 3)), replay.clone());
+                    continue;
+                }
+                Err(e) => machinery_failure("C18", &format!("cannot run the probe under the shim: {}", e)),
+            };
+            let mut t2 = Vec::new();
+            for l in out.lines() {
+                let f: Vec<&str> = l.split_whitespace().collect();
+                if f.len() == 4 && f[0] == "entry" {
+                    t2.push((f[1].to_string(), f[2].to_string(), f[3].parse::<u64>().unwrap_or(0)));
+                }
+            }
+            sink.case(fnv(7, format!("{}{}", c.name, step).as_bytes()), true);
+            sink.count("clock / randomness shim runs", if *t == t2 { "equal" } else { "DIFFERENT" });
+            if t.len() != t2.len() {
+                sink.violation(format!("shim {} entries", c.name), format!("feature set '{}': the probe prints {} entries under the shim, {} without", c.name, t2.len(), t.len()), replay.clone());
+            }
+            for (a, b) in t.iter().zip(t2.iter()) {
+                if a != b {
+                    sink.violation(
+                        format!("shim {} {}", c.name, a.0),
+                        format!("{}: feature set '{}': results over {} corpus inputs change when the clock advances {} s per reading and OS randomness is seeded with {} ({} vs {}): they depend on ambient state, not only on the input", a.0, c.name, a.2, step, seed, a.1, b.1),
+                        replay.clone(),
+                    );
+                }
+            }
+        }
+    }
     let mut corpus_inputs = 0u64;
     if let Some((_, first)) = tables.first() {
         corpus_inputs = first.iter().map(|e| e.2).sum();
@@ -331,7 +388,7 @@ fn main() {
     cov.insert("corpus_inputs_per_configuration".into(), json!(corpus_inputs));
     cov.insert("samples".into(), json!([{"configuration":"serialize-without-std","expected":"compile_error: features `serialize` cannot be enabled when using `no_std`"},{"configuration":"no-default-features","probe":"digest-probe over the catalogue corpus"}]));
     cov.insert("rule".into(), json!(
-        "all 4 feature sets {default, none, std+serialize, serialize-without-std} are built from /repo's working tree (the last must fail with the compile_error text); each buildable one is rebuilt with -F unsafe_code; src/ and build.rs are scanned for the `unsafe` token and the forbid attribute, and so is the macro-expanded crate of each buildable configuration (nightly -Zunpretty=expanded; only the marker impls / unreachable hints of core's built-in derives are accepted); a probe crate is built against each buildable configuration and prints a digest of (class, consumed, Debug text) per entry point over the catalogue corpus with single deviations (25 entry points, registries over all 65536 ids, 216 defragmenter histories): digests must be identical; a second probe asserts Send + Sync for 77 public types. Non-trivial: every configuration / digest comparison"));
+        "all 4 feature sets {default, none, std+serialize, serialize-without-std} are built from /repo's working tree (the last must fail with the compile_error text); each buildable one is rebuilt with -F unsafe_code; src/ and build.rs are scanned for the `unsafe` token and the forbid attribute, and so is the macro-expanded crate of each buildable configuration (nightly -Zunpretty=expanded; only the marker impls / unreachable hints of core's built-in derives are accepted); a probe crate is built against each buildable configuration and prints a digest of (class, consumed, Debug text) per entry point over the catalogue corpus with single deviations (25 entry points, registries over all 65536 ids, 216 defragmenter histories): digests must be identical, also when the probe runs under an LD_PRELOAD shim that makes every clock reading jump ahead (31 s / 1 h / 1 day) and fixes OS randomness (3 runs per configuration); a second probe asserts Send + Sync for 77 public types. Non-trivial: every configuration / digest comparison"));
     let code = run.finish(&sink, cov, vec!["the corpus of the differential probe is the small-scope catalogue with single deviations, not every input".into()]);
     std::process::exit(code);
 }
